@@ -726,6 +726,27 @@ def _xr_reproject_ds(
     return xarray.Dataset(data_vars, attrs=attrs)
 
 
+def _check_nodata_range(nodata, dtype, name: str) -> None:
+    """Raise ValueError when nodata is outside of the range of values of dtype."""
+    if nodata is None:
+        return
+    dtype = numpy.dtype(dtype)
+    if dtype.kind in "iu":
+        info = numpy.iinfo(dtype)
+        ok = bool(info.min <= nodata <= info.max)
+    elif dtype.kind == "f":
+        finfo = numpy.finfo(dtype)
+        ok = bool(
+            numpy.isnan(nodata)
+            or numpy.isinf(nodata)
+            or finfo.min <= nodata <= finfo.max
+        )
+    else:
+        return
+    if not ok:
+        raise ValueError(f"{name} must be in valid range for {dtype.name} data")
+
+
 def _xr_reproject_da(
     src: Any,
     how: Union[SomeCRS, GeoBox],
@@ -763,6 +784,12 @@ def _xr_reproject_da(
         src_nodata = src.odc.nodata
     if dst_nodata is None:
         dst_nodata = src_nodata
+
+    # Same answer for numpy and dask inputs when nodata can not be represented by
+    # the pixel type: GDAL refuses such values, but only when it gets to see them
+    # (never for chunks without source data, and for int8 it sees int16).
+    _check_nodata_range(src_nodata, src.dtype, "src_nodata")
+    _check_nodata_range(dst_nodata, src.dtype, "dst_nodata")
 
     if is_dask_collection(src):
         from ._dask import _dask_rio_reproject
